@@ -87,6 +87,23 @@ Definition resp_close (h11 : bool) (status clen : Z) (fs : list (bs * bs)) : boo
   let cl1 := if Z.eqb clen (-2) && negb upgrade && negb (must_skip_content_length status) then true else cl in
   if negb h11 && negb cl1 then negb keep else cl1.
 
+(* RequestHeader.ConnectionClose() after a successful req.parseHeaders: the same Connection bookkeeping,
+   no until-close framing on the request side *)
+Definition req_close (h11 : bool) (fs : list (bs * bs)) : bool :=
+  let '(cl, first) := rconn_of fs in
+  let stored := match first with Some v => v | None => [] end in
+  if negb h11 && negb cl then negb (has_value stored bytestr_StrKeepAlive) else cl.
+Definition req_close_of (a : list bs) : bs :=
+  let buf := nth 0 a [] in
+  match parse_first_line buf with
+  | FLOk m u h11 rest =>
+      match scan_all (S (length rest)) rest with
+      | SFields fs _ => show_bool (req_close h11 fs)
+      | _ => B "-"
+      end
+  | _ => B "-"
+  end.
+
 (* resp_head block: "OK http11 status contentLength consumed close" | "MORE" | "BAD <why>" *)
 Definition resp_head (a : list bs) : bs :=
   let buf := nth 0 a [] in
